@@ -105,7 +105,8 @@ def meta(tier):
                 'drawn from start x kind/length options, each placed by its own origin; expected rejection iff two lines of '
                 'length >= 1 share an address, otherwise the image is the union; non-trivial = ranges touch or overlap, or a '
                 'zero-length line lies inside another range; every pair (and every touching triple) is run a second time with '
-                '--no-binary and one of the four pretty-print formats, judged on acceptance only; states = distinct sets of occupied (address, owner) cells',
+                '--no-binary and one of the four pretty-print formats, judged on acceptance only; plus every program of up to 4 (thorough 5) lines over bytes / fills / a macro / zone switches '
+                'without any origin directive or predefined data (collisions through overlapping zones and code growing into a zone only); states = distinct sets of occupied (address, owner) cells',
         'bounds': {'starts': 'pairs 0..6; triples 0..3 (quick) / 0..6 (thorough)',
                    'kinds': ['.byte x1..3', '.fill 0|1|3', '.zerountil (len 2, len 0)', 'nop', 'ldi', 'jmp', 'm2 (macro of two 12-bit steps)',
                              '.org k "z1" (z1=2..9)', '.org k "z2" (z2=4..12, overlapping z1)', '.org k "z3" (z3=0..2, sharing one address with z1)', '.org 0 "z4" (z4=3..3)', 'line in an included file',
@@ -134,6 +135,7 @@ def relation(lines):
 
 def shard(acc, tier, idx, n):
     q = tier == 'quick'
+    sequential_programs(acc, idx, n, q)
     isa_cache = {}
     ctr = 0
     pair_opts = line_options(range(0, 7), q)
@@ -176,6 +178,33 @@ def shard(acc, tier, idx, n):
                           nontrivial_key=(lines, fmt) if touch else None)
             if ref.status != 'DC':
                 acc.state(tuple(sorted((a, 1) for a in ref.mem)) if ref.status == 'OK' else ('REJECT', tuple(sorted((s, nn) for _, s, nn in lines))))
+
+
+def sequential_programs(acc, idx, n, q):
+    """Programs without a single origin directive and without predefined data: lines collide only because zones overlap each other or
+    GLOBAL code grows into a zone."""
+    from mc.histories import histories
+    params = R.Params(address_size=16, endian='little', zones=ZONES, origin=0)
+    isa = probe_isa(16, 'little', zones=ZONES)
+
+    def sigma(i):
+        m = 0x30 + 0x10 * i
+        return [('data', 1, [m]), ('data', 1, [m, m + 1, m + 2]), ('fill', 2, m + 5), ('nop',), ('m2', m & 0xFF, 1),
+                ('memzone', 'z1'), ('memzone', 'z2'), ('memzone', 'z3'), ('memzone', 'z4'), ('memzone', 'GLOBAL')]
+    nsym = len(sigma(0))
+    depth = 4 if q else 5
+
+    def build(h):
+        return {'main.asm': [sigma(i)[j] for i, j in enumerate(h)]}
+
+    def ok(h):
+        return R.assemble(params, build(h)).status != 'REJECT'
+
+    for h in histories(list(range(nsym)), depth, idx, n, prefix_ok=ok):
+        files = build(h)
+        ref, out, msg = run_program(acc, params, isa, files,
+                                    clause=lambda r: 'overlap-rejected' if r.status == 'REJECT' else 'disjoint-accepted',
+                                    nontrivial=(('seq', h) if any(j >= 5 for j in h) else None), sample=(len(h) == depth and sum(h) % 97 == 0))
 
 
 def judge(spec, outcomes):
